@@ -12,6 +12,7 @@ VERIF = os.path.dirname(os.path.dirname(os.path.abspath(__file__)))
 EVID = os.environ.get("VERIF_EVID") or os.path.join(VERIF, "evidence")
 KNOWN = os.path.join(VERIF, "known_findings.json")
 BASES = {"0": 0, "2^32-3": 2 ** 32 - 3, "2^63": 2 ** 63, "2^64-40": 2 ** 64 - 40}
+TOP = 2 ** 64 - 2     # an interval here is still a legal uint64 address; its blocks' addresses pass 2^64
 
 
 class Ctx:
